@@ -125,6 +125,7 @@ pub fn cases(args: &[String]) {
             "meta": {"kind": "ordminhash", "m": m, "l": l, "len": data.len(), "nprev": nprev, "data": data,
                      "outcome": if r.is_ok() {"ok"} else {"panic"}, "sig_ok": sig_ok}}));
     }
+    crate::util::wd_pause();
     println!("{}", json!({ "cases": out }));
 }
 
@@ -243,6 +244,113 @@ pub fn props(args: &[String]) {
             }
         }
     }
+    crate::util::wd_pause();
+    // sizes suggested by the driver (new literals of a changed source file): a first call on about that many distinct
+    // elements, then a short sequence sharing elements with it - must equal a new sketcher's signature (self-clearing);
+    // and sketch sizes around them: permutation invariance for l = 1
+    let xs = crate::util::extra_sizes();
+    {
+        let mut ns: Vec<u64> = Vec::new();
+        for s in &xs { for v in [s.saturating_sub(1), *s, s + 1] { if v >= 2 && v <= 300_000 && !ns.contains(&v) { ns.push(v); } } }
+        ns.sort_unstable_by(|a, b| b.cmp(a));
+        for n_calls in ns.iter().take(9) {
+            tried += 1;
+            crate::util::tick_idx(0, json!({"calls_on_one_instance": n_calls}));
+            let first: Vec<u64> = vec![11, 22];
+            let other: Vec<u64> = vec![22, 33];
+            let r = catch_unwind(AssertUnwindSafe(|| {
+                let mut s = ProbOrdMinHash2::<FnvHasher>::new(8, 1);
+                let _ = s.hash_set(&first);
+                for _ in 1..*n_calls { let _ = s.hash_set(&other); }
+                let again = s.hash_set(&first);
+                let mut f = ProbOrdMinHash2::<FnvHasher>::new(8, 1);
+                (again, f.hash_set(&first))
+            }));
+            if let Ok((a, c)) = r {
+                if a != c {
+                    add("ord-history", format!("hash_set depends on earlier calls on the same instance: [11, 22], then {} calls on [22, 33], then [11, 22] again differs from a new sketcher (m=8, l=1)", n_calls - 1),
+                        json!({"m": 8, "l": 1, "calls": [[11, 22], format!("{} x [22, 33]", n_calls - 1), [11, 22]]}));
+                }
+            }
+        }
+    }
+    for t in 0..(if xs.is_empty() { 0 } else { 6 }) {
+        if let Some(v) = crate::util::near_size(&mut rng, &xs, 400_000) {
+            tried += 1;
+            crate::util::tick_idx(t, json!({"first_call_distinct_elements": v}));
+            let long: Vec<u64> = (0..v).collect();
+            let short: Vec<u64> = (0..40u64).map(|i| (i * 7919) % v.max(1)).collect();
+            let r = catch_unwind(AssertUnwindSafe(|| {
+                let mut s = ProbOrdMinHash2::<FnvHasher>::new(16, 2);
+                let _ = s.hash_set(&long);
+                let a = s.hash_set(&short);
+                let a2 = s.hash_set(&short);
+                let mut f = ProbOrdMinHash2::<FnvHasher>::new(16, 2);
+                (a, a2, f.hash_set(&short))
+            }));
+            match r {
+                Err(_) => add("ord-panic", format!("hash_set panicked after a call on {} distinct elements", v), json!({"m": 16, "l": 2, "first_call": format!("0..{}", v), "a": short})),
+                Ok((a, a2, c)) => if a != c || a2 != c {
+                    add("ord-history", format!("hash_set depends on earlier calls on the same instance: after a call on the {} distinct elements 0..{} a 40-element sequence gets a signature different from a new sketcher's (m=16, l=2)", v, v),
+                        json!({"m": 16, "l": 2, "first_call": format!("0..{}", v), "a": short}));
+                }
+            }
+        }
+        if let Some(v) = crate::util::near_size(&mut rng, &xs, 40_000) {
+            tried += 1;
+            let m = v.max(1) as u32;
+            let data: Vec<u64> = (0..400u64).map(|i| i * 104729 + 17).collect();
+            let mut perm = data.clone();
+            perm.reverse();
+            crate::util::tick_idx(t, json!({"m": m, "l": 1}));
+            let r = catch_unwind(AssertUnwindSafe(|| { let mut s = ProbOrdMinHash2::<FnvHasher>::new(m, 1); (s.hash_set(&data), s.hash_set(&perm)) }));
+            match r {
+                Err(_) => add("ord-panic", format!("hash_set panicked (m={}, l=1, 60 elements)", m), json!({"m": m, "l": 1, "a": data})),
+                Ok((a, b)) => if a != b {
+                    add("ord-l1-perm", format!("l=1: the reversed sequence changes the signature (m={}, 400 distinct elements)", m), json!({"m": m, "l": 1, "a": data, "b": perm}));
+                }
+            }
+        }
+    }
+    // long sequences on large sketches (sizes near the new literals): most items stop after very few draws;
+    // the same sequence again, and reversed, on the same instance against a new sketcher
+    for (t, v) in crate::util::near_sizes_all(&xs, 6_000, 6).into_iter().enumerate() {
+        {
+            let m = v.max(2) as u32;
+            let n = 40_000u64;
+            tried += 1;
+            crate::util::tick_idx(t as u64, json!({"m": m, "l": 1, "distinct_elements": n}));
+            let data: Vec<u64> = (0..n).map(|i| i * 2654435761 + 5).collect();
+            let mut rev = data.clone();
+            rev.reverse();
+            let r = catch_unwind(AssertUnwindSafe(|| {
+                let mut s = ProbOrdMinHash2::<FnvHasher>::new(m, 1);
+                let a = s.hash_set(&data);
+                let a2 = s.hash_set(&data);
+                let a3 = s.hash_set(&rev);
+                let mut f = ProbOrdMinHash2::<FnvHasher>::new(m, 1);
+                let c = f.hash_set(&rev);
+                let mut g = ProbOrdMinHash2::<FnvHasher>::new(m, 1);
+                let d = g.hash_set(&data[..(n as usize / 2)]);
+                // a slot whose winner lies in the first half must report the same winner for the prefix alone
+                let frozen = a.iter().zip(d.iter()).filter(|(x, y)| x != y).count();
+                (a == a2, a == a3, a3 == c, frozen)
+            }));
+            let inp = json!({"m": m, "l": 1, "a": format!("(0..{}).map(|i| i * 2654435761 + 5)", n)});
+            match r {
+                Err(_) => add("ord-panic", format!("hash_set panicked (m={}, l=1, {} distinct elements)", m, n), inp),
+                Ok((e1, e2, e3, changed)) => {
+                    if !e1 { add("ord-history", format!("hash_set of the same {} distinct elements twice on one instance gives two signatures (m={}, l=1)", n, m), inp.clone()); }
+                    if !e2 || !e3 { add("ord-l1-perm", format!("l=1: the reversed sequence changes the signature (m={}, {} distinct elements)", m, n), inp.clone()); }
+                    // for a uniform ranking a slot's winner lies in the second half with probability 1/2
+                    let z = (changed as f64 - m as f64 / 2.0) / (m as f64 / 4.0).sqrt();
+                    if m >= 64 && z.abs() > 7.0 {
+                        add("ord-late-winners", format!("m={}, l=1: {} of {} slots are won by the second half of {} distinct elements (expected half, z = {:.1})", m, changed, m, n, z), inp.clone());
+                    }
+                }
+            }
+        }
+    }
     println!("{}", json!({"tried": tried, "found": found}));
 }
 
@@ -275,6 +383,7 @@ pub fn mc(args: &[String]) {
             }
         }
     }
+    crate::util::wd_pause();
     println!("{}", json!({"found": found}));
 }
 
@@ -383,5 +492,6 @@ pub fn mc_rep(args: &[String]) {
             rows.push(json!({"family": name, "m": m, "l": l, "p": p, "mean": mean, "z": z, "trials": trials}));
         }
     }
+    crate::util::wd_pause();
     println!("{}", json!({"rows": rows}));
 }
